@@ -2,6 +2,6 @@
    Directives: exactly those of ExtrOcamlBasic. *)
 Require Extraction.
 Require ExtrOcamlBasic.
-From Pika Require Import Base.Conc Gen.GenEnums Model.Sched.
+From Pika Require Import Base.Conc Gen.GenEnums Model.Sched Model.SchedY.
 Extraction Language OCaml.
-Extraction "m.ml" accepts activations trans_ok sst_of_Z sst_val sched_run mon_ok idle_b lost_wakeup_b w_init.
+Extraction "m.ml" accepts activations trans_ok sst_of_Z sst_val sched_run mon_ok idle_b lost_wakeup_b w_init sched_runY monY_ok idleY_b.
